@@ -6,7 +6,9 @@ meaning "the k-th call (1-based) to address `addr` whose method matches".
 Kinds: drop_request, drop_reply, delay_reply (past the deadline), slow (the
 handler is held for `secs` simulated seconds), death (the node is partitioned
 for ever when the request arrives), death_after (when the reply is due),
-restart (death + a new incarnation after `after` seconds).
+restart (death + a new incarnation after `after` seconds), goodbye (the
+server is asked to stop gracefully while it serves the call, which is then
+held for `secs`).
 Every fault is counted when it actually fires.
 """
 
@@ -69,6 +71,12 @@ class PlanPolicy(courier.Policy):
       if f['kind'] == 'slow':
         self._fire(f, call)
         time.sleep(f['secs'])
+      if f['kind'] == 'goodbye':
+        # The worker process is asked to stop while it serves this call: it
+        # says goodbye to its host (unregisters) and the call is held back.
+        self._fire(f, call)
+        self.cluster.servers[f['addr']].stop()
+        time.sleep(f.get('secs', 0.0))
 
   def on_reply(self, call):
     delay = self.sim.draw([0.0, 0.001, 0.01], 'lat') if self.latency else 0.0
